@@ -3,7 +3,7 @@
 JSON values are plain Python values with the number *variant* kept by the Python type:
 int -> PosInt / NegInt (must fit u64 / i64), float -> Float (finite), str, list, dict, None, bool.
 """
-import os, sys, struct, subprocess, json, time, fcntl, hashlib, shutil
+import os, sys, re, struct, subprocess, json, time, fcntl, hashlib, shutil
 
 VERIF = os.path.dirname(os.path.dirname(os.path.abspath(__file__)))
 REPO = os.environ.get("VERIF_REPO", "/repo")
@@ -127,6 +127,12 @@ def build_harness(profile="dev"):
         lock_dst = os.path.join(HARNESS, "Cargo.lock")
         if not os.path.exists(lock_dst) and os.path.exists(lock_src):
             shutil.copy(lock_src, lock_dst)
+        # a copy of /verif used for sweeps against a clone of the crate (VERIF_REPO) must build its harness against that clone
+        ct = os.path.join(HARNESS, "Cargo.toml")
+        txt = open(ct).read()
+        want = re.sub(r'jsonlogic-rs = \{ path = "[^"]*" \}', 'jsonlogic-rs = { path = "%s" }' % REPO, txt)
+        if want != txt and VERIF != "/verif":
+            open(ct, "w").write(want)
         cmd = ["cargo", "build", "--offline", "--quiet"]
         if profile != "dev":
             cmd += ["--profile", profile]
